@@ -534,6 +534,15 @@ class Enumerator(object):
                 if sk == 'Let' and s.get('pat', {}).get('k') == 'Bind' and s['pat']['id'] in self.log_only_ids():
                     nxt.append(p)
                     continue  # computed for a log line only
+                if sk == 'Let' and self.ev.moved_alias(self.stack[-1] if self.stack else getattr(self, 'root_fn', None), s) is not None:
+                    yid = self.ev.moved_alias(self.stack[-1] if self.stack else getattr(self, 'root_fn', None), s)
+                    yv = p.env.get(yid)
+                    if yv is None:
+                        yv = self.ev.eval(s['init'], p.env, [], None, [])
+                    self.ev.mutated.pop(s['pat']['id'], None)
+                    p.env[s['pat']['id']] = yv
+                    nxt.append(p)
+                    continue
                 if sk == 'Let':
                     if s.get('init') is None:
                         self.ev.bind_pat(s['pat'], None, p.env)
